@@ -70,6 +70,14 @@ func (obj *Array) calcAndSet(list List) {
 		for i := 0; i < len(obj.dims); i++ {
 			obj.dims[i] = len(list)
 			if i < len(obj.dims)-1 {
+				if len(list) == 0 {
+					// An empty axis, the remaining axes are empty as well.
+					for i++; i < len(obj.dims); i++ {
+						obj.dims[i] = 0
+						obj.sizes[i] = 0
+					}
+					break
+				}
 				if list, ok = list[0].(List); !ok {
 					ErrorPanic(NewScope(), 0, "Invalid data for a %d dimension array. %s", len(obj.dims), list)
 				}
